@@ -23,7 +23,7 @@ from crosshair.libimpl.builtinslib import (ModelingDirector, RealBasedSymbolicFl
                                            SymbolicBoundedIntTuple, SymbolicBytes)
 from crosshair.core import suspected_proxy_intolerance_exception
 
-from .api import Draws, HarnessError, Reached, Violation, jsonable
+from .api import (Draws, HarnessError, LogTrap, Reached, Violation, install_logtrap, jsonable)
 
 # ---------------------------------------------------------------- solver accounting
 _Q = {"n": 0, "t": 0.0}
@@ -63,40 +63,14 @@ for _c in (ControlFlowException, IgnoreAttempt, NotDeterministic):
     _hook_exc(_c)
 
 
-class _LogTrap(logging.Handler):
-    """collects what bacpypes logs at ERROR level (swallowed exceptions) per path"""
-
-    def __init__(self):
-        logging.Handler.__init__(self, level=logging.ERROR)
-        self.records = []
-        self.intolerance = False
-
-    def emit(self, record):
-        try:
-            exc = record.exc_info[1] if record.exc_info else None
-            if exc is None and record.args:
-                for a in (record.args if isinstance(record.args, tuple) else (record.args,)):
-                    if isinstance(a, BaseException):
-                        exc = a
-            with NoTracing():
-                if exc is not None and isinstance(exc, TypeError) and \
-                        suspected_proxy_intolerance_exception(exc):
-                    self.intolerance = True
-            self.records.append((record.name, type(exc).__name__ if exc is not None else None))
-        except Exception:   # pragma: no cover
-            pass
+class _SxLogTrap(LogTrap):
+    def classify(self, exc):
+        with NoTracing():
+            if isinstance(exc, TypeError) and suspected_proxy_intolerance_exception(exc):
+                self.intolerance = True
 
 
-LOGTRAP = _LogTrap()
-_root_logger = logging.getLogger("bacpypes")
-_root_logger.addHandler(LOGTRAP)
-_root_logger.propagate = False
-logging.getLogger().addHandler(logging.NullHandler())
-
-
-def logged_errors():
-    """[(logger name, exception type name)] logged by bacpypes on the current path"""
-    return list(LOGTRAP.records)
+LOGTRAP = install_logtrap(_SxLogTrap())
 
 
 # ---------------------------------------------------------------- symbolic draws
@@ -187,8 +161,7 @@ def explore(fn, params, budget=60.0, path_timeout=60.0, twin=False, known=None,
                            model_check_timeout=path_timeout / 2, search_root=root)
         status = None
         d = SymbolicDraws(twin=twin)
-        LOGTRAP.records = []
-        LOGTRAP.intolerance = False
+        LOGTRAP.reset()
         poison0 = _POISON["n"]
         ended_by_cf = False
         raised = None
